@@ -514,11 +514,24 @@ func (e *wireExec) argsReuse(ent *keyEntry) {
 		}
 		var ta, tb *invocation.Token
 		var ea, eb error
+		var sealedA []byte
+		var beforeA string
 		if guard(o, "invocation.New(shared arguments)", func() {
-			ta, ea = invocation.New(ent.id, ent.id, command.MustParse("/a"), nil, invocation.WithArguments(common), invocation.WithArgument("own-a", "A"))
+			ta, ea = invocation.New(ent.id, ent.id, command.MustParse("/a"), nil, invocation.WithArguments(common), invocation.WithArgument("own-a", "A"), invocation.WithNonce(labelNonce("reuse-a", 12)))
+			if ea == nil && ta != nil {
+				sealedA, _, _ = ta.ToSealed(ent.priv)
+				beforeA = recOf(ta).Content()
+			}
 			tb, eb = invocation.New(ent.id, ent.id, command.MustParse("/a"), nil, invocation.WithArguments(common), invocation.WithArgument("own-b", "B"))
 		}) || ea != nil || eb != nil || ta == nil || tb == nil {
 			continue
+		}
+		// the first token was sealed before the second one was built: it still is what it sealed to
+		o.Eval("C07")
+		if now := recOf(ta).Content(); now != beforeA {
+			o.Violate("C07", "field-changed", "a sealed token changed when the Args it was built from served a second constructor", map[string]string{"where": "WithArguments(shared)"})
+		} else if da, _, derr := invocation.FromSealed(sealedA); derr == nil && da != nil && recOf(da).Content() != recOf(ta).Content() {
+			o.Violate("C07", "field-changed", "a token no longer agrees with its own sealed form after the Args it was built from served a second constructor", map[string]string{"where": "WithArguments(shared)"})
 		}
 		laterErr := common.Add("own-a", "caller")
 		o.Eval("C10")
@@ -552,6 +565,9 @@ func (e *wireExec) argsReuse(ent *keyEntry) {
 		attrs := map[string]string{"where": "WithArguments(shared)", "n": fmt.Sprint(n)}
 		if why := holds(ta, "own-a", "A", "own-b"); why != "" {
 			o.Violate("C10", "argument-altered", "two tokens built from one shared Args: the first token: "+why, attrs)
+			// (the same thing seen from the round trip: what the first token sealed to before the
+			// second one existed no longer agrees with it)
+			o.Violate("C07", "field-changed", "a token built from an Args that a second constructor used afterwards no longer agrees with itself: "+why, attrs)
 			return
 		}
 		if why := holds(tb, "own-b", "B", "own-a"); why != "" {
@@ -938,7 +954,7 @@ func (e *wireExec) conservation(acc []accepted, orig *wireTok, mutant []byte, ki
 			if pub := e.pubs[rec.Iss]; pub != nil {
 				if ok, _ := pub.Verify(semanticCanon(env.sp).Encode(), env.sig.Data); !ok {
 					o.Violate("C06", "signature-not-by-issuer", fmt.Sprintf("%s accepted a %s mutant (%s): content and signed part are as the issuer signed them, but the signature it carries does not verify under the issuer's key", a.dec, kindOfMutation, class), map[string]string{"mutation": kindOfMutation, "alg": orig.alg})
-					continue
+					// (no continue: the same bytes are also a second carrier of signed content, see below)
 				}
 			}
 		}
@@ -1433,6 +1449,18 @@ func (e *wireExec) sigStep(s *XStep, w *wireTok, env *envelope) {
 			}
 		}
 		desc = fmt.Sprintf("payload rewritten, nonce = the %d bytes of the genuine signed part, genuine signature", len(genuineSP))
+	case "meta_huge_uint":
+		// a rewritten payload under the genuine signature whose metadata holds an unsigned integer
+		// beyond int64 (metadata integers are not bounded; some helpers of the codec choke on them)
+		pl := payloadIn(m.sp)
+		pl.MapSet("aud", cbText(other.id.String()))
+		big := []*CB{cbUint(1 << 63), cbUint(math.MaxUint64), cbArray(cbInt(1), cbUint(1<<63)), cbMap(cbText("n"), cbUint(1<<63+1))}[s.Val%4]
+		if mm := pl.MapGet("meta"); mm != nil && mm.Major == 5 {
+			mm.MapSet("huge", big)
+		} else {
+			pl.MapSet("meta", cbMap(cbText("huge"), big))
+		}
+		desc = "payload rewritten (audience, metadata with an unsigned integer beyond int64), genuine signature"
 	case "sig_shape":
 		// the signature element is not a byte string but a LIST (of none, of the genuine signature,
 		// of the genuine one and another), a map, a null: with the payload's nonce rewritten in
@@ -1633,7 +1661,13 @@ func (e *wireExec) sigStep(s *XStep, w *wireTok, env *envelope) {
 			var vb bytes.Buffer
 			for i, pt := range parts {
 				if i == (s.At/2)%len(parts) {
-					putUvarint(&vb, huge)
+					if s.Val%4 == 3 {
+						// a varint that does not even fit 64 bits (ten continuation bytes and more)
+						vb.Write([][]byte{bytes.Repeat([]byte{0xff}, 10), append(bytes.Repeat([]byte{0x80}, 9), 0x02), bytes.Repeat([]byte{0x80}, 16)}[s.Val/4%3])
+						vb.WriteByte(0x01)
+					} else {
+						putUvarint(&vb, huge)
+					}
 				} else {
 					vb.Write(pt)
 				}
